@@ -495,6 +495,16 @@ func (env *Env) lookupSSA(name string) *Val {
 			return e.loadLoc(env.st, e.ptrLoc(p))
 		}
 	}
+	// a variable that lives in memory (address taken / captured by a closure): its current value is the cell's content
+	for _, b := range fr.fn.Blocks {
+		for _, in := range b.Instrs {
+			if a, ok := in.(*ssa.Alloc); ok && a.Comment == name {
+				if p, ok := fr.vals[a]; ok {
+					return e.loadLoc(env.st, e.ptrLoc(p))
+				}
+			}
+		}
+	}
 	if len(cands) == 1 {
 		if v, ok := fr.vals[cands[0]]; ok {
 			return v
